@@ -9,6 +9,7 @@ import (
 	"regexp"
 	"sort"
 	"strconv"
+	"strings"
 	"testing"
 	"time"
 
@@ -38,6 +39,11 @@ type c16Case struct {
 	// the cues come back at their absolute timecodes, the list has no programme start, and a second write renders the
 	// same timecodes
 	IgnoreTCP bool `json:"ignore_tcp,omitempty"`
+	// Chain: every cue starts at the instant the cue before it ends (back-to-back cues): how an instant is rendered
+	// does not depend on the neighbouring cues
+	Chain bool `json:"chain,omitempty"`
+	// DSC (STL): the display standard code of the list, "0" when empty; "-" = the list has none (the writer's default)
+	DSC string `json:"dsc,omitempty"`
 }
 
 // ceilNs is the instant a reader assigns to u units of 1/perSecond s (rounded up to the next nanosecond).
@@ -77,6 +83,12 @@ func checkC16(c c16Case) string {
 	n := len(c.Instants) / 2
 	if n == 0 {
 		return ""
+	}
+	if c.Chain {
+		c.Instants = append([]int64(nil), c.Instants...)
+		for i := 1; i < n; i++ {
+			c.Instants[2*i] = c.Instants[2*i-1]
+		}
 	}
 	s := astisub.NewSubtitles()
 	for i := 0; i < n; i++ {
@@ -124,6 +136,9 @@ func checkC16(c c16Case) string {
 			perSecond = 30
 		}
 		s.Metadata = &astisub.Metadata{Framerate: int(perSecond), STLDisplayStandardCode: "0", STLTimecodeStartOfProgramme: time.Duration(ceilNs(c.TCPUnits, perSecond))}
+		if c.DSC != "" {
+			s.Metadata.STLDisplayStandardCode = strings.TrimPrefix(c.DSC, "-")
+		}
 		write = func(s *astisub.Subtitles, b *bytes.Buffer) error { return s.WriteToSTL(b) }
 		read = func(b []byte) (*astisub.Subtitles, error) {
 			return astisub.ReadFromSTL(bytes.NewReader(b), astisub.STLOptions{IgnoreTimecodeStartOfProgramme: c.IgnoreTCP})
@@ -564,6 +579,29 @@ func TestC16(t *testing.T) {
 		}
 	})
 
+	// back-to-back cues (each starts where the one before ends), under every display standard for STL
+	sub(t, "chains", func(t *testing.T) {
+		if cfgShard != 0 {
+			return
+		}
+		for _, format := range c16Formats {
+			for _, dsc := range []string{"", "1", "2", "-"} {
+				if dsc != "" && format != "stl25" && format != "stl30" {
+					continue
+				}
+				for _, step := range []int64{1000 * nsMs, 2000 * nsMs, 40 * nsMs, 1234567891, 3600 * 1000 * nsMs} {
+					var ins []int64
+					for i := int64(0); i < 12; i++ {
+						ins = append(ins, i*step, (i+1)*step)
+					}
+					c := c16Case{Format: format, Instants: ins, Chain: true, DSC: dsc}
+					ev.Case(true, fmt.Sprintf("%v", c), "back-to-back-cues", "format-"+format)
+					verdict(t, "C16", "c16", c, checkC16)
+				}
+			}
+		}
+	})
+
 	rapidCheck(t, "C16/random", tier(300, 20000), func(rt *rapid.T) {
 		format := rapid.SampledFrom(c16Formats).Draw(rt, "format")
 		n := rapid.IntRange(1, 40).Draw(rt, "n")
@@ -592,6 +630,12 @@ func TestC16(t *testing.T) {
 		if rapid.IntRange(0, 3).Draw(rt, "textless") == 0 {
 			c.Text = rapid.IntRange(1, 3).Draw(rt, "textk")
 			ev.Label("cues-that-show-nothing")
+		}
+		if c.Chain = rapid.IntRange(0, 3).Draw(rt, "chain") == 0; c.Chain {
+			ev.Label("back-to-back-cues")
+		}
+		if format == "stl25" || format == "stl30" {
+			c.DSC = rapid.SampledFrom([]string{"", "", "1", "2", "-"}).Draw(rt, "dsc")
 		}
 		ev.Case(true, fmt.Sprintf("%v", c), "random", "format-"+format)
 		if n <= 2 {
